@@ -24,13 +24,14 @@ for job in inflight:
                "nodes": [], "events": [], "violation": {"prop": "C03", "check": "C03/abnormal-exit", "detail": "process aborted or hung"},
                "minimised": False, "note": "seed-only replay: the run is regenerated from the seed"}, open(path, "w"))
     try:
-        rc = subprocess.run([binp, "replay", path, "--quiet"], stdout=subprocess.DEVNULL, stderr=subprocess.DEVNULL, timeout=120).returncode
+        rc = subprocess.run([binp, "replay", path, "--quiet"], stdout=subprocess.DEVNULL, stderr=subprocess.DEVNULL, timeout=40).returncode
     except subprocess.TimeoutExpired:
         rc = -1
     if rc not in (0, 1, 2):
-        print(f"  C03/abnormal-exit :: seed {seed} kills the process (exit {rc}; -1 = no termination within 120 s)")
+        print(f"  C03/abnormal-exit :: seed {seed} kills the process (exit {rc}; -1 = no termination within 40 s; a normal run takes well under a second)")
         print(f"VIOLATION property={prop} replay={path}")
         found = True
+        break  # one culprit is enough for the verdict; the others in flight are very likely the same defect
     else:
         os.remove(path)
 sys.exit(1 if found and prop == "C03" else (1 if found else 0))
